@@ -173,3 +173,22 @@ func (c Cfg) shuffleEntry(mt reflect.Type, data []byte, r *rand.Rand, changed *b
 	}
 	return joinFields(fs)
 }
+
+// RawField is one top-level field of an encoding
+type RawField struct {
+	Index, WireType int
+	Payload         []byte
+}
+
+// SplitFields splits well-formed struct data into its fields (nil on malformed data)
+func SplitFields(data []byte) (out []RawField) {
+	defer func() {
+		if recover() != nil {
+			out = nil
+		}
+	}()
+	for _, f := range splitFields(data) {
+		out = append(out, RawField{f.idx, f.wt, f.payload})
+	}
+	return out
+}
